@@ -56,6 +56,9 @@ func c16Options(sc c16Scenario, pop int) *neat.Options {
 	case "addlink":
 		o.MutateOnlyProb, o.MutateAddNodeProb, o.MutateAddLinkProb, o.NewLinkTries = 1, 0, 1, 4
 		o.RecurOnlyProb = 0.5
+	case "connect":
+		// every baby is a copy whose disconnected sensor gets connected to every non-sensor node
+		o.MutateOnlyProb, o.MutateAddNodeProb, o.MutateAddLinkProb, o.MutateConnectSensors = 1, 0, 0, 1
 	case "addlink0":
 		// the optional NewLinkTries left at its zero value (a configuration that never adds a link)
 		o.MutateOnlyProb, o.MutateAddNodeProb, o.MutateAddLinkProb, o.NewLinkTries = 1, 0, 1, 0
@@ -98,6 +101,8 @@ func c16Scenarios(quick bool) []c16Scenario {
 		{Name: "2 species x 2 offspring, trait mutation beside interspecies mating", HB: two, Profile: "traits", Policy: "A", Fit: 1},
 		{Name: "2 species x 1 offspring, all add-link with NewLinkTries left unset", HB: hbSpec{Sizes: []int{1, 1}, Ages: []int{1, 1}, Lags: []int{0, 0}}, Profile: "addlink0", Policy: "M", Fit: 1},
 	}
+	scs = append(scs, c16Scenario{Name: "2 species x 1 offspring, all connect-sensors (one disconnected sensor, two and three targets)",
+		HB: hbSpec{Sizes: []int{1, 1}, Ages: []int{1, 1}, Lags: []int{0, 0}, DiscSensor: true, MinHidden: 1}, Profile: "connect", Policy: "M", Fit: 1})
 	if !quick {
 		scs = append(scs,
 			c16Scenario{Name: "3 species x 2 offspring, all add-link", HB: three, Profile: "addlink", Policy: "H", Fit: 1},
@@ -410,6 +415,29 @@ func runC16RacePass(c *Ctx) {
 			}
 		}
 	}
+	// twenty species (more reproduction goroutines than processors, than any fixed pool size), the guarantees checked
+	{
+		hb := hbSpecs["hbm"]
+		opts := CfgRow{40, 1, 0.5, 3, 0, 1, 1, false}.Options()
+		opts.EpochExecutorType = neat.EpochExecutorTypeParallel
+		vrand.Seed(seed + 7)
+		pop := buildHandBuilt(hb, opts)
+		ctx := opts.NeatContext()
+		for epoch := 1; epoch <= 3; epoch++ {
+			for i, o := range pop.Organisms {
+				o.Fitness = fitnessOf(5, epoch, i, len(pop.Organisms), o)
+			}
+			ex := &genetics.ParallelPopulationEpochExecutor{}
+			if err := ex.NextEpoch(ctx, epoch, pop); err != nil {
+				fmt.Println("RACEPASS-EPOCH-ERROR twenty species", err)
+				break
+			}
+			if msg := c16FreePredicate(pop, opts.PopSize); msg != "" {
+				fmt.Println("RACEPASS-EPOCH-ERROR twenty species, epoch", epoch, ":", msg)
+				break
+			}
+		}
+	}
 	// a longer free run with mating and stealing from a spawned population
 	row := CfgRow{12, 1, 0.5, 3, 5, 1.5, 1, true}
 	opts := row.Options()
@@ -427,11 +455,49 @@ func runC16RacePass(c *Ctx) {
 				fmt.Println("RACEPASS-EPOCH-ERROR free run", err)
 				break
 			}
+			if msg := c16FreePredicate(pop, opts.PopSize); msg != "" {
+				fmt.Println("RACEPASS-EPOCH-ERROR free run, epoch", epoch, ":", msg)
+				break
+			}
 		}
 	}
 	c.Evaluations = 1
 	c.Extra["explanation"] = "internal: free-running bodies for the race detector"
 	fmt.Println("RACEPASS-DONE")
+}
+
+// c16FreePredicate: the population guarantees after a free-running parallel epoch (size, partition, well-formed genomes,
+// unique genome ids).
+func c16FreePredicate(pop *genetics.Population, size int) string {
+	if len(pop.Organisms) != size {
+		return fmt.Sprintf("%d organisms, population size is %d", len(pop.Organisms), size)
+	}
+	listed := map[*genetics.Organism]int{}
+	for _, s := range pop.Species {
+		if len(s.Organisms) == 0 {
+			return fmt.Sprintf("species %d is empty", s.Id)
+		}
+		for _, o := range s.Organisms {
+			listed[o]++
+			if o.Species != s {
+				return fmt.Sprintf("an organism listed by species %d points to another species", s.Id)
+			}
+		}
+	}
+	ids := map[int]bool{}
+	for _, o := range pop.Organisms {
+		if listed[o] != 1 {
+			return fmt.Sprintf("an organism is listed by %d species", listed[o])
+		}
+		if ids[o.Genotype.Id] {
+			return fmt.Sprintf("genome id %d occurs twice", o.Genotype.Id)
+		}
+		ids[o.Genotype.Id] = true
+		if msg := wellFormed(o.Genotype); msg != "" {
+			return "ill-formed genome: " + msg
+		}
+	}
+	return ""
 }
 
 // c16RunRacePass runs build/mc-race several times and turns a detector report into a violation.
@@ -483,6 +549,12 @@ func c16RunRacePass(c *Ctx) {
 			done++
 			break
 		}
+		if err != nil && (strings.Contains(out, "panic:") || strings.Contains(out, "fatal error:")) && c16LibraryFrame(out) {
+			// the library itself crashed during a free-running parallel epoch: a verdict, not a tooling error
+			c.ViolateOrd("C16/racepass-panic", 2, "a free-running parallel epoch crashed inside the library: "+c16PanicLine(out), &Replay{Scenario: "racepass", Params: map[string]interface{}{"seed": c.Seed*100 + int64(i), "gomaxprocs": procs}, Clause: "panic", Trace: tailStr(out, 3000)})
+			done++
+			break
+		}
 		if err != nil || !strings.Contains(out, "RACEPASS-DONE") {
 			panic(fmt.Sprintf("race pass run failed without a race report (%v, %s): %s", err, time.Since(t0), tailStr(out, 600)))
 		}
@@ -492,6 +564,35 @@ func c16RunRacePass(c *Ctx) {
 		done++
 	}
 	c.Extra["race_pass_runs"] = done
+}
+
+// c16LibraryFrame: the crash trace's first frames below the panic lie in the library (not in the harness or a shim)
+func c16LibraryFrame(out string) bool {
+	i := strings.Index(out, "panic:")
+	if j := strings.Index(out, "fatal error:"); j >= 0 && (i < 0 || j < i) {
+		i = j
+	}
+	if i < 0 {
+		return false
+	}
+	for _, line := range strings.Split(out[i:], "\n") {
+		if strings.HasPrefix(line, "main.") || strings.Contains(line, "verif/cmd/mc") {
+			return false // the harness frame comes first: not the library's crash
+		}
+		if strings.Contains(line, "goNEAT/v4/neat/genetics.") || strings.Contains(line, "goNEAT/v4/neat/network.") || strings.Contains(line, "goNEAT/v4/neat.") || strings.Contains(line, "goNEAT/v4/neat/math.") {
+			return true
+		}
+	}
+	return false
+}
+
+func c16PanicLine(out string) string {
+	for _, line := range strings.Split(out, "\n") {
+		if strings.HasPrefix(line, "panic:") || strings.HasPrefix(line, "fatal error:") {
+			return line
+		}
+	}
+	return ""
 }
 
 func tailStr(s string, n int) string {
